@@ -136,9 +136,10 @@ def observe_query(sc, traced=True):
             src = src.parent
             if src is None:
                 return "nosrc"
+    use_log_to = traced == "log_to"
     traced = traced and sc.get("traced", True)
     trace = make_trace(log) if traced else None
-    if traced == "log_to":
+    if use_log_to:
         from treepath import log_to
         sink = []
         trace = log_to(sink.append)
